@@ -113,11 +113,14 @@ class Ctx:
                 with open(p, "w") as f:
                     json.dump({"property": self.pid, **o.as_dict()}, f, indent=1)
                 replay_paths.append(p)
+        # A failed obligation is definite on its own (same atoms on both sides, different polynomials /
+        # tables), so it is reported even when a later rule instance could not be analysed; an analysis
+        # error alone is never a verdict.
         status = 0
-        if error is not None:
-            status = 2
-        elif new_violations:
+        if new_violations:
             status = 1
+        elif error is not None:
+            status = 2
         self.write_evidence(len(new_violations), error)
         for ln in lines:
             print(ln)
@@ -125,9 +128,10 @@ class Ctx:
             print(f"  rule {o.rule} @ {o.construct}: {_short(o.detail, 300)}")
             print(f"    extracted: {_short(o.extracted, 300)}")
             print(f"    oracle:    {_short(o.oracle, 300)}")
-            if error is None:
-                print(f"VIOLATION property={self.pid} replay={p}")
-        if error is not None:
+            print(f"VIOLATION property={self.pid} replay={p}")
+        if error is not None and new_violations:
+            print(f"NOTE property={self.pid} analysis stopped early after the violations above: {error}")
+        elif error is not None:
             print(f"ANALYSIS-ERROR property={self.pid} {error}")
         elif not new_violations:
             n = len(self.obligations)
